@@ -102,12 +102,25 @@ type smCmd struct {
 const smOverLong = 9
 
 var smReadCmds = map[string]bool{}
-var smExpirySetting = map[string]bool{"setx": true, "setex": true, "expire": true, "hexpire": true, "lexpire": true, "sexpire": true, "zexpire": true}
+var smExpirySetting = map[string]bool{"setx": true, "setex": true, "expire": true, "hexpire": true, "lexpire": true, "sexpire": true, "zexpire": true, "bexpire": true}
+
+// bit offsets: the codes 2000000000 / 2000000001 stand for 2^32-2 (the largest) and 2^32-1 (refused)
+var smBitOffs = []int{0, 7, 8, 8191, 8192, 8200, 16383, 2000000000}
+
+func bitOff(c int) int64 {
+	switch c {
+	case 2000000000:
+		return 4294967294
+	case 2000000001:
+		return 4294967295
+	}
+	return int64(c)
+}
 
 func init() {
 	for _, c := range strings.Fields("get strlen exists exists2 mget getrange ttl hget hmget hexists hlen hgetall hkeys hvals hkeyexist httl " +
 		"llen lindex lrange lkeyexist lttl scard sismember smembers srandmember skeyexist sttl zcard zscore zrank zrevrank zrange zrevrange " +
-		"zrangebyscore zrevrangebyscore zcount zrangebylex zlexcount zkeyexist zttl") {
+		"zrangebyscore zrevrangebyscore zcount zrangebylex zlexcount zkeyexist zttl getbit bitcount bitcount2 bkeyexist bttl") {
 		smReadCmds[c] = true
 	}
 }
@@ -116,6 +129,8 @@ func smTypeOf(c string) byte {
 	switch c {
 	case "rpush", "rpush2", "rpop":
 		return 'l'
+	case "setbit", "getbit", "bitcount", "bitcount2", "bitclear", "bkeyexist", "bexpire", "bttl", "bpersist":
+		return 'b'
 	}
 	switch c[0] {
 	case 'h':
@@ -420,7 +435,9 @@ func (d *smDrv) writeArgs(c *smCmd) [][]byte {
 		return [][]byte{b("setex"), k, it(a[0] * int(d.hscale)), d.val(a[1])}
 	case "mset":
 		return [][]byte{b("mset"), k, d.val(a[0]), d.key(a[1]), d.val(a[2])}
-	case "incr", "decr", "persist", "hclear", "hpersist", "lpop", "rpop", "lclear", "lpersist", "spop", "sclear", "spersist", "zclear", "zpersist":
+	case "setbit":
+		return [][]byte{b("setbit"), k, []byte(strconv.FormatInt(bitOff(a[0]), 10)), it(a[1])}
+	case "incr", "decr", "persist", "hclear", "hpersist", "lpop", "rpop", "lclear", "lpersist", "spop", "sclear", "spersist", "zclear", "zpersist", "bitclear", "bpersist":
 		return [][]byte{b(c.C), k}
 	case "del":
 		return [][]byte{b("del"), k}
@@ -430,7 +447,7 @@ func (d *smDrv) writeArgs(c *smCmd) [][]byte {
 		return [][]byte{b(c.C), k, intText(a[0])}
 	case "setrange":
 		return [][]byte{b("setrange"), k, it(a[0]), d.val(a[1])}
-	case "expire", "hexpire", "lexpire", "sexpire", "zexpire":
+	case "expire", "hexpire", "lexpire", "sexpire", "zexpire", "bexpire":
 		if a[0] == 2000000001 {
 			return [][]byte{b(c.C), k, intText(a[0])}
 		}
@@ -681,8 +698,30 @@ func (d *smDrv) read(c *smCmd) (r []int) {
 			return rErr
 		}
 		return d.rBulk(v) // RESP nil and "" are not distinguished for GETRANGE
-	case "ttl", "httl", "lttl", "sttl", "zttl":
-		n := d.ttlOf(map[string]byte{"ttl": 'k', "httl": 'h', "lttl": 'l', "sttl": 's', "zttl": 'z'}[c.C], k)
+	case "getbit":
+		n, err := st.BitGetV2(k, bitOff(a[0]))
+		if e(err) {
+			return rErr
+		}
+		return rInt(n)
+	case "bitcount", "bitcount2":
+		s0, e0 := int64(0), int64(-1)
+		if c.C == "bitcount2" {
+			s0, e0 = int64(a[0]), int64(a[1])
+		}
+		n, err := st.BitCountV2(k, s0, e0)
+		if e(err) {
+			return rErr
+		}
+		return rInt(n)
+	case "bkeyexist":
+		n, err := st.BitKeyExist(k)
+		if e(err) {
+			return rErr
+		}
+		return rInt(n)
+	case "ttl", "httl", "lttl", "sttl", "zttl", "bttl":
+		n := d.ttlOf(map[string]byte{"ttl": 'k', "httl": 'h', "lttl": 'l', "sttl": 's', "zttl": 'z', "bttl": 'b'}[c.C], k)
 		if n == -5 {
 			return rErr
 		}
@@ -962,6 +1001,8 @@ func (d *smDrv) ttlOf(ty byte, k []byte) int {
 			return d.st.ListTtl(k)
 		case 's':
 			return d.st.SetTtl(k)
+		case 'b':
+			return d.st.BitTtl(k)
 		}
 		return d.st.ZSetTtl(k)
 	}))
@@ -1047,6 +1088,16 @@ func (d *smDrv) observe(ty byte, kid int) {
 			}
 			rec["ev"] = "obs_s"
 			rec["n"], rec["mem"], rec["ex"], rec["pt"], rec["ttl"] = n, ids, ex, pt, d.ttlOf('s', k)
+		case 'b':
+			cnt, _ := st.BitCountV2(k, 0, -1)
+			ex, _ := st.BitKeyExist(k)
+			bits := seqs{}
+			for _, o := range smBitOffs {
+				x, _ := st.BitGetV2(k, bitOff(o))
+				bits = append(bits, []int{o, int(x)})
+			}
+			rec["ev"] = "obs_b"
+			rec["cnt"], rec["ex"], rec["bits"], rec["ttl"] = cnt, ex, bits, d.ttlOf('b', k)
 		case 'z':
 			n, _ := st.ZCard(k)
 			rng, _ := st.ZRangeGeneric(k, 0, -1, false)
@@ -1089,7 +1140,7 @@ func (d *smDrv) observe(ty byte, kid int) {
 
 func (d *smDrv) observeAll() {
 	for k := 1; k <= d.nk; k++ {
-		for _, ty := range []byte("khlsz") {
+		for _, ty := range []byte("khlszb") {
 			d.observe(ty, k)
 		}
 	}
@@ -1102,7 +1153,7 @@ func (d *smDrv) emit(m trace.M) {
 
 // ---------------------------------------------------------------- steering (avoid constraints of recorded findings)
 
-var smDT = map[byte]byte{'k': rockredis.KVType, 'h': rockredis.HashType, 'l': rockredis.ListType, 's': rockredis.SetType, 'z': rockredis.ZSetType}
+var smDT = map[byte]byte{'b': rockredis.BitmapType, 'k': rockredis.KVType, 'h': rockredis.HashType, 'l': rockredis.ListType, 's': rockredis.SetType, 'z': rockredis.ZSetType}
 
 // raw stored expiry second of a key (0 none) - used only to steer generation and to count antecedents
 func (d *smDrv) rawExp(ty byte, kid int) (exists bool, exp int64) {
@@ -1217,7 +1268,7 @@ func (d *smDrv) run(group []*smCmd, rest []*smCmd) {
 		r := smFixNilOk(g, d.writeReply(g, res[i]))
 		if len(r) == 1 && r[0] == -7 {
 			d.st8.Panics++
-			d.emit(trace.M{"ev": "panic", "where": g.C, "msg": fmt.Sprint(res[i])})
+			d.emit(trace.M{"ev": "panic", "where": g.C, "c": g.C, "k": g.K, "a": nzi(g.A), "msg": fmt.Sprint(res[i])})
 		} else {
 			if len(r) == 1 && r[0] == 4 {
 				d.st8.Errors++
@@ -1229,6 +1280,9 @@ func (d *smDrv) run(group []*smCmd, rest []*smCmd) {
 		d.st8.PerCmd[g.C]++
 		for _, kid := range smKeysOf(g) {
 			touched[string([]byte{smTypeOf(g.C)})+strconv.Itoa(kid)] = true
+			if g.C == "setbit" {
+				touched["k"+strconv.Itoa(kid)] = true // SETBIT may adopt (and remove) the legacy string under the key
+			}
 		}
 	}
 	d.nwrite++
@@ -1281,6 +1335,9 @@ func (d *smDrv) presence() map[string]bool {
 		p["s"+strconv.Itoa(k)] = n > 0
 		n, _ = d.st.ZKeyExists(key)
 		p["z"+strconv.Itoa(k)] = n > 0
+		if ex, _ := d.rawExp('b', k); ex {
+			p["b"+strconv.Itoa(k)] = true
+		}
 	}
 	return p
 }
@@ -1658,6 +1715,7 @@ func (d *smDrv) bigRun(n int) {
 type smGen struct {
 	only   []string // if set: choose uniformly among these command names
 	overlong bool   // now and then name an over-long field/member
+	bitranges bool  // BITCOUNT with arbitrary byte ranges
 	extreme  bool   // numeric extremes: symbolic score classes, int64 min/max indexes
 	rng    *rand.Rand
 	nk, ns int
@@ -1713,6 +1771,13 @@ var smGenCmds = map[byte][]string{
 	's': strings.Fields("sadd sadd sadd2 sadd2 srem srem2 spop spopn sclear scard sismember smembers srandmember skeyexist"),
 	'z': strings.Fields("zadd zadd zadd2 zadd2 zincrby zrem zrem2 zremrangebyrank zremrangebyscore zremrangebylex zclear zcard zscore zrank zrevrank zrange zrevrange zrangebyscore zrevrangebyscore zcount zrangebylex zlexcount zkeyexist"),
 }
+func init() {
+	// no string commands on bitmap keys in the general corpus: the legacy string -> bitmap conversion is
+	// broken (recorded findings kv-bitmap-legacy-conversion-*); scripts exercise it (isolate stage)
+	smGenCmds['b'] = strings.Fields("setbit setbit setbit setbit bitclear getbit getbit bitcount bitcount2 bkeyexist")
+	smGenExpCmds['b'] = strings.Fields("bexpire bexpire bpersist bttl")
+}
+
 var smGenExpCmds = map[byte][]string{
 	'k': strings.Fields("setex expire expire persist ttl setx"),
 	'h': strings.Fields("hexpire hexpire hpersist httl"),
@@ -1759,6 +1824,22 @@ func (g *smGen) next() *smCmd {
 		c.T = g.tick()
 	}
 	switch name {
+	case "setbit":
+		c.A = []int{smBitOffs[r.Intn(len(smBitOffs))], r.Intn(2)}
+		if r.Intn(25) == 0 {
+			c.A[0] = []int{-1, 2000000001}[r.Intn(2)] // refused offsets
+		}
+	case "getbit":
+		c.A = []int{smBitOffs[r.Intn(len(smBitOffs))]}
+	case "bitcount2":
+		if g.bitranges {
+			c.A = []int{[]int{0, 1, 1023, 1024, 1025, 2047}[r.Intn(6)], []int{-1, 0, 1, 1023, 1024, 2047, 5000}[r.Intn(7)]}
+		} else {
+			// segment-aligned starts and an open end only (recorded finding kv-bitcount-range)
+			c.A = []int{[]int{0, 1024, 2048}[r.Intn(3)], -1}
+		}
+	case "bexpire":
+		c.A = []int{dur()}
 	case "set", "setnx", "getset", "append", "lpush", "rpush":
 		c.A = []int{vid()}
 	case "setx":
@@ -1920,6 +2001,16 @@ func smReadProduct(ty byte, nk, ns int) []*smCmd {
 			for _, n := range []int{1, 2, 5} {
 				add("srandmember", k, n)
 			}
+		case 'b':
+			for _, n := range strings.Fields("bitcount bkeyexist bttl get") {
+				add(n, k)
+			}
+			for _, o := range []int{0, 7, 8, 8192} {
+				add("getbit", k, o)
+			}
+			for _, s := range []int{0, 1024} {
+				add("bitcount2", k, s, -1)
+			}
 		case 'z':
 			for _, n := range strings.Fields("zcard zkeyexist zttl") {
 				add(n, k)
@@ -2027,6 +2118,7 @@ func smsim(args []string) error {
 	group := fs.Int("group", 1, "random mode: apply up to this many commands on distinct keys as one raft entry batch")
 	overlong := fs.Bool("overlong", true, "random mode: now and then a write names an over-long (> 10240 bytes) field/member")
 	extreme := fs.Bool("extreme", true, "random mode: numeric extremes (scores +-inf, +-1e19, +-2^63, +-9e18, +-1e-300, -0; indexes int64 min/max)")
+	bitranges := fs.Bool("bitranges", false, "random mode: BITCOUNT with arbitrary byte ranges (default: aligned starts, open end)")
 	equalNs := fs.Bool("equalns", false, "all commands of a tick carry the same nanosecond timestamp (isolate stage)")
 	avoid := fs.String("avoid", "", "avoid constraints: kind:cmd,cmd;kind:cmd  (kinds: dead clock always emptyval)")
 	nk := fs.Int("nk", 2, "keys used (<= 4)")
@@ -2175,7 +2267,7 @@ func smsim(args []string) error {
 	case *nrand > 0:
 		mode = "random"
 		for i := 0; i < *nrand; i++ {
-			g := &smGen{rng: d.rng, nk: *nk, ns: *ns, types: *types, dup: *dup, expiry: *expiry, window: *window, maxT: *maxT, overlong: *overlong, extreme: *extreme}
+			g := &smGen{rng: d.rng, nk: *nk, ns: *ns, types: *types, dup: *dup, expiry: *expiry, window: *window, maxT: *maxT, overlong: *overlong, extreme: *extreme, bitranges: *bitranges}
 			if *only != "" {
 				g.only = strings.Split(*only, ",")
 			}
